@@ -29,8 +29,8 @@ from floatcmp import f2b, b2f, close  # noqa: E402
 from parallel import driver_parallel  # noqa: E402
 
 PROPS = ['FinVerif.Props.C01', 'FinVerif.Props.C01b', 'FinVerif.Props.C01c', 'FinVerif.Props.C01d', 'FinVerif.Props.C01e']
-DRIVERS = ['FinVerif.Driver.C02', 'FinVerif.Driver.C01']
-GEN = ['RatesF', 'RatesR', 'CurvesF']   # CurvesF: imported by Driver/C02, which this check also builds
+DRIVERS = ['FinVerif.Driver.C02', 'FinVerif.Driver.C01', 'FinVerif.Driver.C02Axis']
+GEN = ['RatesF', 'RatesR', 'CurvesF', 'DateK', 'DayCount']   # CurvesF: imported by Driver/C02, which this check also builds
 TOL = 1e-8          # value / notional, sequential bootstrap (newton tol 1e-10)
 LS_TOL = 1e-6       # value / notional, global least-squares refit of the non-local interpolators
 RULE = ('seeded quote sets in three regimes cycled per case (positive rates -1 %..+12 %; EUR-2021 style negative rates: deposits/FRAs/'
@@ -55,18 +55,8 @@ def quiet(f, *a, **k):
         return f(*a, **k)
 
 
-def touches_leap(v, d):
-    import calendar
-    from financepy.utils.date import Date
-    if d.excel_dt <= v.excel_dt:
-        return False
-    for y in range(v.y, d.y + 1):
-        if calendar.isleap(y):
-            lo = max(v.excel_dt, Date(1, 1, y).excel_dt)
-            hi = min(d.excel_dt, Date(1, 1, y + 1).excel_dt)
-            if hi > lo:
-                return True
-    return False
+import timeaxis  # noqa: E402
+from timeaxis import touches_leap  # noqa: E402,F401  (the ONE classifier predicate: mirror of Spec.touchesLeap, compared with Lean every run)
 
 
 def run(ctx):
@@ -107,6 +97,8 @@ def run(ctx):
 
     def dt_axis(v, d):
         """|t365 - tISDA| of date d: the time-axis gap of the leap-year defect"""
+        if d.excel_dt >= v.excel_dt:      # exact: theorem time_axis_gap (Props/C02f), leap-year days of [v, d) times (1/365 - 1/366)
+            return float(timeaxis.axis_gap(v, d))
         return abs((d.excel_dt - v.excel_dt) / 365.0 - yf(DCT.ACT_ACT_ISDA, v, d))
 
     def mk_depo(a, r):
@@ -999,6 +991,8 @@ def run(ctx):
                       finding='C01/leap-time-axis' if (touches_leap(v, depo.maturity_dt) and abs(e) <= 2 * 0.15 * dt_axis(v, depo.maturity_dt) + 1e-12) else None,
                       clause='reprice-deposit')
     ctx.count('witness', 1)
+    # ---- the classifier predicate `touches_leap` == Spec.touchesLeap of the Lean theorems (Props/C02f), compared on every run
+    timeaxis.check(ctx, drivers_ok, n_quick=1500, n_thorough=10000, prop='C01')
     ctx.cov['histogram'] = dict(sorted(hist.items()))
     ctx.assumptions += [
         'the root finder (scipy.optimize.newton, tol 1e-10) and the least-squares refit are parameters with a postcondition; '
